@@ -44,8 +44,8 @@ func decoder[T any]() func([]byte) (core.Case, error) {
 }
 
 // cli runs the CLI on the CRS root. How the global flags are spelled is varied deterministically (by a hash of the
-// command line): -d / --directory / --directory=, in front of or behind the sub-command, pointing at the root or at its
-// regex-assembly directory (from where the root has to be found), with or without a log level. None of this may change
+// command line): -d / --directory / --directory=, in front of or behind the sub-command, pointing at the root (absolute or relative to the working directory) or at a directory below it (from where the
+// root has to be found), with or without a log level. None of this may change
 // what a command does, so every monitor also exercises these spellings.
 func cli(env *core.Env, root string, stdin []byte, args ...string) *sut.Result {
 	h := uint32(2166136261)
@@ -58,8 +58,13 @@ func cli(env *core.Env, root string, stdin []byte, args ...string) *sut.Result {
 		h = (h ^ uint32(root[i])) * 16777619
 	}
 	dir := root
-	if (h>>8)%5 == 0 {
+	switch (h >> 8) % 7 {
+	case 0:
 		dir = filepath.Join(root, "regex-assembly")
+	case 1:
+		dir = "." // relative to the working directory, which is the root
+	case 2:
+		dir = "./regex-assembly/../regex-assembly/include/.."
 	}
 	var flags []string
 	switch h % 4 {
